@@ -201,6 +201,7 @@ type Cfg struct {
 	// (e) SetX(unfrozen v) while the record currently holds a frozen (shared) X: the setter
 	// clones the shared value without initialising the clone's parent links.
 	AllowCloneUnlinked bool
+	ForceRevealArray, ForceRevealOneof, ForceRevealShared bool // focused runs: bias towards the formerly avoided sequences
 	ForceCloneUnlinked bool // focused runs only: always put an unfrozen value over a shared one
 	// (f) CopyFrom(src) where dst holds a frozen X and src an unfrozen one: dst gets a fresh
 	// zero X and the copy marks only differences from zero.
